@@ -1,7 +1,7 @@
 (** The sender-side theorems of C01 in their final form, over the observable frame log. *)
 From Coq Require Import List ZArith Bool Lia.
 From V Require Import Gen.Params Lib.Hex Wire.Varint SendStream.Model SendStream.ProofsBase SendStream.ProofsInv
-  SendStream.ProofsCov SendStream.ProofsOut SendStream.ProofsFin.
+  SendStream.ProofsCov SendStream.ProofsOut SendStream.ProofsFin SendStream.ProofsCnt.
 Import ListNotations.
 Open Scope Z_scope.
 
@@ -73,6 +73,20 @@ Proof.
   - apply (j_cov _ H2 HS).
   - apply (j_fincov _ H2 HS).
   - apply (j_cnt _ H2).
+Qed.
+
+(* the outstanding-frame counter is exact in every history, so the code never panics
+   (given pop budgets of at most one packet, which is all the framer ever offers) *)
+Theorem sender_no_panic :
+  late s = false -> budgets_ok ops ->
+  panicked s = false /\ numOut s = cnt_stream s + cnt_reset s /\ 0 <= numOut s.
+Proof.
+  intros HL HB. unfold s in *. rewrite run_fst in *.
+  destruct (run_C s0 ops (init_Inv _ _ _ _) (init_InvC _ _ _ _) eq_refl HL HB) as [HC HP].
+  split; [exact HP|]. split; [apply (c_cnt _ HC)|]. rewrite (c_cnt _ HC).
+  unfold cnt_stream, cnt_reset. pose proof (zlen_nonneg (outstanding (run_state s0 ops))).
+  pose proof (zlen_nonneg (filter (fun r => r_rel r =? ro (run_state s0 ops)) (outReset (run_state s0 ops)))).
+  destruct (_ && _); lia.
 Qed.
 
 Lemma reset_none_late : resetErr s = None -> late s = false.
